@@ -1047,6 +1047,29 @@ def check_p5(ctx) -> None:
         return
     ctx.require(len(key_defs) == 1, 'client cache present but cache_key definition not found (idiom changed)')
     v = key_defs[0].value
+    # the text the key is built from must be read from the file on every request: a copy kept on the request object (or in a cache) is
+    # the text of the *first* request, so a rewritten file keeps its old key
+    from gxstat.inline import inline_sequential as _inl
+    for cname_ in ('GeophiresInputParameters',):
+        ci_ = repo.find_cls(cname_, f.module)
+        at = ci_.methods.get('as_text') if ci_ is not None else None
+        if at is None:
+            continue
+        memo = any('cache' in norm(d) for d in at.node.decorator_list)
+        stale = None
+        for r in walk_no_nested(at.node):
+            if isinstance(r, ast.Return) and r.value is not None:
+                rv = _inl(r.value, r)
+                reads = any(isinstance(x, ast.Call) and isinstance(x.func, ast.Attribute) and x.func.attr in ('read', 'read_text', 'readlines')
+                            for x in ast.walk(rv))
+                if not reads and any(isinstance(x, ast.Attribute) and isinstance(x.value, ast.Name) and x.value.id == 'self' and
+                                     not isinstance(parent(x), ast.Call) for x in ast.walk(rv)):
+                    stale = r
+        ctx.check(stale is None and not memo, 'P5', f'{cname_}.as_text/reads-the-file-on-every-call', at.where,
+                  f'{cname_}.as_text returns a copy of the text kept from an earlier call ('
+                  f'{"memoised" if memo else "`" + norm(stale)[:60] + "`" if stale is not None else ""}): the cache key built from it does not '
+                  f'change when the input file is rewritten, and the second request is answered with the first one\'s result',
+                  fact='file read on every call')
     deps: Set[str] = set()
     content = False
     if isinstance(v, ast.Call) and dotted_name(v.func) == 'hash' and len(v.args) == 1 and norm(v.args[0]) == 'input_params':
